@@ -11,32 +11,47 @@ COQ_CHECK = ("Model.C15", "check")
 COQ_FALLBACK = None
 COQ_IMPORTS = ""
 SHARD = 12
-RULE = ("aa.Inversion(dataset, linear_obj_list, settings, preloads=Preloads(...)) against the same call without preloads. Datasets: "
-        "masks with 3-10 unmasked pixels of any shape in 4x4..6x6 frames, signed integer data, noise in {1/2,1,2,4}, signed integer "
-        "PSFs 1x1/1x3/3x1/3x3 (not normalised); 1-4 linear objects in every order mixing rectangular mappers (mesh 2x2..3x3, sub-size "
-        "1/2, Constant regularization of several coefficients or none) and function lists (1-2 columns, with / without "
-        "operated_mapping_matrix_override, with / without regularization); both formalisms (settings.use_w_tilde and the Preloads "
-        "use_w_tilde slot), both solvers, default and dyadic diagonal term. 'hist' cases: a random subset of the 11 consulted slots "
-        "filled from a separate fresh inversion, 1-4 successive inversions sharing the Preloads object, each reading a random "
-        "sequence of 16 attributes (curvature_matrix before and after curvature_reg_matrix included); outputs, oracle tables and the "
-        "final content of every slot go to Coq. 'subsets' cases (Python level): ALL subsets of the available slots x 2 inversions, "
-        "byte fingerprints of every preloaded array. 'noise' cases: a preloaded w_tilde whose noise_map_value differs. "
+RULE = ("aa.Inversion(dataset, linear_obj_list, settings, preloads=Preloads(...)) against the same call without preloads, and "
+        "Preloads.set_*(fit_0, fit_1) followed by such inversions. Datasets: masks with 3-10 unmasked pixels of any shape in 4x4..6x6 frames "
+        "(pixel scales isotropic or anisotropic, origin shifted or not), signed integer data x 2^a (a in {0,-30,20}), noise in {1/2,1,2,4} x 2^b "
+        "(b in {0,-3,5}), signed integer PSFs 1x1/1x3/3x1/3x3 (not normalised), arrays built directly or by Array2D arithmetic; 1-4 linear objects "
+        "in every order mixing rectangular mappers (mesh 2x2..3x3, sub-size 1/2, Constant regularization of several coefficients or none) and "
+        "function lists (1-2 columns x 2^g, g in {0,-27,10}, with / without operated_mapping_matrix_override, with / without regularization); both "
+        "formalisms (settings.use_w_tilde and the Preloads use_w_tilde slot), both solvers, default and dyadic diagonal term, "
+        "force_edge_pixels_to_zeros / positive_only_uses_p_initial, one settings object per inversion or ONE shared by all. "
+        "'hist' cases: a random subset of the 11 consulted slots filled from a separate fresh inversion (private copies, or the very arrays / "
+        "dicts of that inversion), 1-4 successive inversions sharing the Preloads object, each reading a random sequence of 16 attributes; "
+        "variants: 'twin' = a second dataset (other data, noise, PSF) on the SAME linear objects with inversions interleaved, with its own "
+        "Preloads object or the same one re-populated before every inversion; 'edits' = slots cleared / refilled between inversions. Outputs, "
+        "oracle tables and the final content of every slot go to Coq (one KHist case per segment); every inversion is also compared in Python "
+        "with a fresh inversion reading the same attributes, all caller inputs and the factories' default-argument objects are fingerprinted. "
+        "'sets' cases: two real inversions wrapped in MockFitImaging (fit_1 identical / other data / other noise / other function objects; "
+        "fit_0 optionally using preloads itself; attributes of fit_0's inversion read before and AFTER), a random order / subset / repetition "
+        "of the five set_* methods; the filled Preloads object, which calls raised, fit_0's reads and the fresh values of the filled slots go to "
+        "Coq (KSet), followed by a history that uses the Preloads object (KHist); directed sub-streams reproduce defects 1fc8a9b and f780999. "
+        "'subsets' cases (Python level): ALL subsets of the available slots x 2 inversions, byte fingerprints of every preloaded array. "
+        "'noise' cases: a preloaded w_tilde whose noise_map_value differs. Comparisons are relative to the scale of the expected value. "
         "Non-trivial = at least one slot filled and at least one mapper; distinct = distinct JSON input.")
 EXHAUSTIVE = {"quick": "per 'subsets' case: all subsets of the slots available for that object mix (up to 2^10), 2 inversions each",
               "thorough": "per 'subsets' case: all subsets of the slots available for that object mix (up to 2^10), 3 inversions each"}
 TRUSTED = ["hand-written Gallina model coq/Model/C15.v (slot look-ups, cache, references/aliases into the Preloads object, in-place "
-           "statements) tied to /repo by this correspondence run: the model is executed at Q with dense reference semantics of the "
-           "numeric kernels (C = convolver applied to the identity, W = P + P^T expanded from the w-tilde triple); the comparison is "
-           "evaluated inside Coq by vm_compute",
+           "statements, the five Preloads.set_* methods) tied to /repo by this correspondence run: the model is executed at Q with dense "
+           "reference semantics of the numeric kernels (C = convolver applied to the identity, W = P + P^T expanded from the w-tilde triple); "
+           "the comparison is evaluated inside Coq by vm_compute",
+           "coq/Model/C15k.v: the kernel record instantiated with the C04/C03 models (theorems 9-12 are about those; their tie to /repo is "
+           "C04's and C03's own correspondence run)",
            "oracle tables (execution device only): reconstruction, log det of the curvature-reg matrix and of the regularization matrix "
            "are looked up by their computed arguments in tables recorded from a separate inversion without preloads",
            "Python reference semantics (attribute = reference; numpy slice assignment and += write the referenced array)",
-           "doubles: inputs are small integers / dyadic rationals, so data vector and curvature matrix are exact; quantities involving "
-           "1e-8 / 1e-3 constants or a linear solve are compared with relative tolerance 1e-9"]
-ASSUMPTIONS = ["slot values are those a fresh inversion of the same class computes from the identical dataset and objects",
+           "doubles: inputs are small integers / dyadic rationals (scaled by powers of two), so operated matrices, data vector and curvature "
+           "matrix are exact and compared entry-wise relative (1e-9); solved vectors relative to their largest entry, the regularization term "
+           "relative to its rounding scale, log-determinants with 1 + |x|; the set_* decisions max|a-b| < 1e-8 see differences 0, 2^-30 or >= 2^-20"]
+ASSUMPTIONS = ["slot values are those a fresh inversion computes from the identical dataset and objects (hand-filled), or whatever "
+               "Preloads.set_* store from two fits (production path)",
                "imaging inversions only (the interferometer classes consult the same AbstractInversion slots; not exercised)",
-               "kernel identities F_wtilde = F_mapping etc. are C04's; here they are hypotheses of the cross-formalism theorem and "
-               "checked numerically"]
+               "theorems 9-12: rectangular mask, Convolver.__init__ succeeded, strictly positive noise, each mapper's unique-mapping encoding "
+               "stands for its mapping matrix (C07), the solver returns one value per parameter, the w_tilde objects hold the preload of this "
+               "noise map and PSF"]
 
 SLOTS = ["w_tilde", "operated_mapping_matrix", "linear_func_operated_mapping_matrix_dict", "data_linear_func_matrix_dict",
          "mapper_operated_mapping_matrix_dict", "curvature_matrix", "data_vector_mapper", "curvature_matrix_mapper_diag",
